@@ -54,61 +54,163 @@ def effCommit (c : PlanCfg) (a : PlanCli) : Bool := a.commit.getD c.commit
 def effTag (c : PlanCfg) (a : PlanCli) : Bool := a.tagCommit.getD c.tag
 def effPush (c : PlanCfg) (a : PlanCli) : Bool := a.push.getD c.push
 
+/-! glue between the helper lemmas (Proofs/PlanLemmas.lean) and the predicates above -/
+
+private theorem tagEv_facts {f : Bool} {ev : Ev} (h : TagEv f ev) :
+    ev.mutating = false ∧ ev.isHook = false ∧ ev ≠ .rewrite ∧ ev.isTag = false ∧
+      ev.isPush = false ∧ ev ≠ .cmd "commit" ∧ ev ≠ .cmd "status" ∧ (∀ p, ev ≠ .add p) ∧
+      ev.rank = none ∧ (f = false → ev ≠ .cmd "fetch") := by
+  rcases h with rfl | rfl | rfl | ⟨rfl, rfl | rfl | rfl⟩ <;>
+    simp [Ev.mutating, Ev.isHook, Ev.isTag, Ev.isPush, Ev.rank]
+
+private theorem remEv_facts {ev : Ev} (h : RemEv ev) :
+    ev.mutating = false ∧ ev.isHook = false ∧ ev.isTag = false ∧ ev.isPush = false ∧
+      (∀ p, ev ≠ .add p) ∧ ev.rank = none ∧ ev ≠ .cmd "fetch" := by
+  rcases h with rfl | rfl <;> simp [Ev.mutating, Ev.isHook, Ev.isTag, Ev.isPush, Ev.rank]
+
+/-- what the predicates say about an event logged by the commit phase -/
+private theorem commitEv_facts {e : PlanEnv} {c : PlanCfg} {C : List Ev} {o : Outcome}
+    (hsh : CommitShape e c C o) {ev : Ev} (hC : ev ∈ C) :
+    (ev.isTag = true → c.tag = true ∧ Ev.cmd "commit" ∈ C) ∧
+    (ev.isPush = true → c.push = true ∧ Ev.cmd "commit" ∈ C) ∧
+    (∀ x y, ev = .preHook x y → x = e.startVersion ∧ y = e.announced) ∧
+    (∀ x y, ev = .postHook x y → x = e.startVersion ∧ y = e.announced) := by
+  rcases hsh.mem hC with ⟨rfl, -⟩ | ⟨p, -, rfl⟩ | rfl | ⟨rfl, -⟩ | ⟨rfl, ht, hc⟩ | ⟨h, -⟩ |
+      ⟨rfl, hp, hc⟩
+  · simp [Ev.isTag, Ev.isPush]
+  · simp [Ev.isTag, Ev.isPush]
+  · simp [Ev.isTag, Ev.isPush]
+  · simp [Ev.isTag, Ev.isPush]
+  · unfold tagCmd; split <;> simp [Ev.isTag, Ev.isPush, ht, hc]
+  · rcases h with rfl | rfl <;> simp [Ev.isTag, Ev.isPush]
+  · unfold pushCmd; split <;> simp [Ev.isTag, Ev.isPush, hp, hc]
+
+private theorem isTag_tagCmd (c : PlanCfg) : (tagCmd c).isTag = true := by
+  unfold tagCmd; split <;> simp [Ev.isTag]
+
+/-- either the options are rejected, or the trace has one of the shapes of `PlanShape` for
+    the merged configuration -/
+private theorem plan_cases (c : PlanCfg) (a : PlanCli) (e : PlanEnv) :
+    (parseVcsOptions c a = none ∧ plan c a e = ([], 1)) ∨
+    ∃ c', PlanShape c' a e (plan c a e).1 (plan c a e).2 ∧ c'.commit = effCommit c a ∧
+      c'.tag = effTag c a ∧ c'.push = effPush c a := by
+  cases hp : parseVcsOptions c a with
+  | none => exact .inl ⟨rfl, by simp [plan, hp]⟩
+  | some c' => exact .inr ⟨c', plan_shape c c' a e hp, parseVcsOptions_some hp⟩
+
 /-- exactly the contradictory combinations are rejected … -/
 theorem C10_reject_iff (c : PlanCfg) (a : PlanCli) :
     parseVcsOptions c a = none ↔
       (effCommit c a = false ∧ (a.tagCommit = some true ∨ a.push = some true)) := by
-  sorry
+  exact parseVcsOptions_none_iff c a
 
 /-- … and they are rejected before anything happens -/
 theorem C10_reject_first (c : PlanCfg) (a : PlanCli) (e : PlanEnv)
     (h : parseVcsOptions c a = none) : plan c a e = ([], 1) := by
-  sorry
+  simp [plan, h]
 
 /-- the steps occur in the documented order: dirty check, rewrite, pre-commit hook, stage,
     commit, post-commit hook, tag, push -/
 theorem C10_order (c : PlanCfg) (a : PlanCli) (e : PlanEnv) :
     ((plan c a e).1.filterMap Ev.rank).Pairwise (· ≤ ·) := by
-  sorry
+  rcases plan_cases c a e with ⟨_, hp⟩ | ⟨c', sh, -, -, -⟩
+  · simp [hp]
+  · have hrk : Ev.rank = Ev.rk := by funext ev; cases ev <;> rfl
+    have := sh.rk.1
+    rw [List.filterMap_reverse, List.pairwise_reverse] at this
+    rw [hrk]
+    exact this
 
 /-- a commit happens only if enabled (config or flag) and never in a dry run -/
 theorem C10_commit_gated (c : PlanCfg) (a : PlanCli) (e : PlanEnv)
     (h : Ev.cmd "commit" ∈ (plan c a e).1) : effCommit c a = true ∧ a.dry = false := by
-  sorry
+  rcases plan_cases c a e with ⟨_, hp⟩ | ⟨c', sh, hcm, -, -⟩
+  · simp [hp] at h
+  · rcases sh.mem h with ht | ⟨hd, ⟨_, hs⟩ | hr | ⟨hc, -⟩⟩
+    · exact absurd rfl (tagEv_facts ht).2.2.2.2.2.1
+    · simp at hs
+    · simp at hr
+    · exact ⟨hcm ▸ hc, hd⟩
 
 /-- without a commit there is never a tag or push; tag and push only if enabled -/
 theorem C10_tag_push_gated (c : PlanCfg) (a : PlanCli) (e : PlanEnv) (ev : Ev)
     (h : ev ∈ (plan c a e).1) :
     (ev.isTag = true → Ev.cmd "commit" ∈ (plan c a e).1 ∧ effTag c a = true) ∧
     (ev.isPush = true → Ev.cmd "commit" ∈ (plan c a e).1 ∧ effPush c a = true) := by
-  sorry
+  rcases plan_cases c a e with ⟨_, hp⟩ | ⟨c', sh, -, htg, hps⟩
+  · simp [hp] at h
+  · rcases sh.mem h with ht | ⟨-, ⟨-, rfl⟩ | rfl | ⟨-, -, -, -, C, o, hsh, hC, hsub, -⟩⟩
+    · simp [(tagEv_facts ht).2.2.2.1, (tagEv_facts ht).2.2.2.2.1]
+    · simp [Ev.isTag, Ev.isPush]
+    · simp [Ev.isTag, Ev.isPush]
+    · obtain ⟨h1, h2, -⟩ := commitEv_facts hsh hC
+      exact ⟨fun ht => ⟨hsub _ (h1 ht).2, htg ▸ (h1 ht).1⟩,
+        fun hp => ⟨hsub _ (h2 hp).2, hps ▸ (h2 hp).1⟩⟩
 
 /-- staging and hooks only around an enabled commit -/
 theorem C10_add_hook_gated (c : PlanCfg) (a : PlanCli) (e : PlanEnv) (ev : Ev)
     (h : ev ∈ (plan c a e).1) (hk : ev.isHook = true ∨ (∃ p, ev = .add p)) :
     effCommit c a = true ∧ a.dry = false ∧ Ev.rewrite ∈ (plan c a e).1 := by
-  sorry
+  rcases plan_cases c a e with ⟨_, hp⟩ | ⟨c', sh, hcm, -, -⟩
+  · simp [hp] at h
+  · rcases sh.mem h with ht | ⟨hd, ⟨-, rfl⟩ | rfl | ⟨hc, -, -, hrw, -⟩⟩
+    · rcases hk with hk | ⟨p, rfl⟩
+      · simp [(tagEv_facts ht).2.1] at hk
+      · exact absurd rfl ((tagEv_facts ht).2.2.2.2.2.2.2.1 p)
+    · simp [Ev.isHook] at hk
+    · simp [Ev.isHook] at hk
+    · exact ⟨hcm ▸ hc, hd, hrw⟩
 
 /-- with `--dry`: no mutating VCS command, no hook, no file written -/
 theorem C10_dry (c : PlanCfg) (a : PlanCli) (e : PlanEnv) (hd : a.dry = true) (ev : Ev)
     (h : ev ∈ (plan c a e).1) : ev.mutating = false ∧ ev.isHook = false ∧ ev ≠ .rewrite := by
-  sorry
+  rcases plan_cases c a e with ⟨_, hp⟩ | ⟨c', sh, -, -, -⟩
+  · simp [hp] at h
+  · rcases sh.mem h with ht | ⟨hd', -⟩
+    · exact ⟨(tagEv_facts ht).1, (tagEv_facts ht).2.1, (tagEv_facts ht).2.2.1⟩
+    · simp [hd] at hd'
 
 /-- with `--no-fetch` nothing is ever fetched -/
 theorem C10_no_fetch (c : PlanCfg) (a : PlanCli) (e : PlanEnv) (hf : a.fetch = false) :
     Ev.cmd "fetch" ∉ (plan c a e).1 := by
-  sorry
+  intro h
+  rcases plan_cases c a e with ⟨_, hp⟩ | ⟨c', sh, -, -, -⟩
+  · simp [hp] at h
+  · rcases sh.mem h with ht | ⟨-, ⟨_, hs⟩ | hr | ⟨-, -, -, -, C, o, hsh, hC, -⟩⟩
+    · exact (tagEv_facts ht).2.2.2.2.2.2.2.2.2 hf rfl
+    · simp at hs
+    · simp at hr
+    · rcases hsh.mem hC with ⟨h, -⟩ | ⟨p, -, h⟩ | h | ⟨h, -⟩ | ⟨h, -⟩ | ⟨h, -⟩ | ⟨h, -⟩
+      · simp at h
+      · simp at h
+      · simp at h
+      · simp at h
+      · unfold tagCmd at h; split at h <;> simp at h
+      · exact (remEv_facts h).2.2.2.2.2.2 rfl
+      · unfold pushCmd at h; split at h <;> simp at h
 
 /-- a dirty tree (C11 verdict `abort`) stops the run before any file is modified -/
 theorem C10_dirty_blocks (c : PlanCfg) (a : PlanCli) (e : PlanEnv)
     (hd : e.dirtyAbort = true) (hs : Ev.cmd "status" ∈ (plan c a e).1) :
     (plan c a e).2 = 1 ∧ ∀ ev ∈ (plan c a e).1, ev ≠ .rewrite ∧ ev.mutating = false ∧ ev.isHook = false := by
-  sorry
+  rcases plan_cases c a e with ⟨_, hp⟩ | ⟨c', sh, -, -, -⟩
+  · simp [hp] at hs
+  · obtain ⟨hcode, hall⟩ := sh.dirty_stop hd hs
+    refine ⟨hcode, fun ev hev => ?_⟩
+    rcases hall ev hev with ht | rfl
+    · exact ⟨(tagEv_facts ht).2.2.1, (tagEv_facts ht).1, (tagEv_facts ht).2.1⟩
+    · simp [Ev.mutating, Ev.isHook]
 
 /-- whenever a commit is attempted, the dirty check ran first -/
 theorem C10_status_before_rewrite (c : PlanCfg) (a : PlanCli) (e : PlanEnv)
     (h : Ev.cmd "commit" ∈ (plan c a e).1) : Ev.cmd "status" ∈ (plan c a e).1 := by
-  sorry
+  rcases plan_cases c a e with ⟨_, hp⟩ | ⟨c', sh, -, -, -⟩
+  · simp [hp] at h
+  · rcases sh.mem h with ht | ⟨-, ⟨_, hs⟩ | hr | ⟨-, -, hst, -⟩⟩
+    · exact absurd rfl (tagEv_facts ht).2.2.2.2.2.1
+    · simp at hs
+    · simp at hr
+    · exact hst
 
 /-- read-only probes whose failure is swallowed by `is_usable` / `get_remote` -/
 def Ev.swallowed : Ev → Bool
@@ -134,14 +236,37 @@ theorem C10_hook_failure_stops (c : PlanCfg) (a : PlanCli) (e : PlanEnv) :
         (plan c a e).1.getLast? = some (.preHook o n) ∧ (plan c a e).2 = 1) ∧
     (e.postOk = false → ∀ o n, Ev.postHook o n ∈ (plan c a e).1 →
         (plan c a e).1.getLast? = some (.postHook o n) ∧ (plan c a e).2 = 1) := by
-  sorry
+  rcases plan_cases c a e with ⟨_, hp⟩ | ⟨c', sh, -, -, -⟩
+  · simp [hp]
+  · constructor
+    · intro hpre x y h
+      rcases sh.mem h with ht | ⟨-, ⟨_, hs⟩ | hr | ⟨-, -, -, -, C, o, hsh, hC, -, hcode, hlast⟩⟩
+      · simpa [Ev.isHook] using (tagEv_facts ht).2.1
+      · simp at hs
+      · simp at hr
+      · obtain ⟨hh, rfl⟩ := hsh.pre_fail hpre hC
+        exact ⟨hlast _ hh, by simpa using hcode⟩
+    · intro hpost x y h
+      rcases sh.mem h with ht | ⟨-, ⟨_, hs⟩ | hr | ⟨-, -, -, -, C, o, hsh, hC, -, hcode, hlast⟩⟩
+      · simpa [Ev.isHook] using (tagEv_facts ht).2.1
+      · simp at hs
+      · simp at hr
+      · obtain ⟨hh, rfl⟩ := hsh.post_fail hpost hC
+        exact ⟨hlast _ hh, by simpa using hcode⟩
 
 /-- hooks receive the start version and the announced version -/
 theorem C10_hook_env (c : PlanCfg) (a : PlanCli) (e : PlanEnv) (ev : Ev)
     (h : ev ∈ (plan c a e).1) :
     (∀ o n, ev = .preHook o n → o = e.startVersion ∧ n = e.announced) ∧
     (∀ o n, ev = .postHook o n → o = e.startVersion ∧ n = e.announced) := by
-  sorry
+  rcases plan_cases c a e with ⟨_, hp⟩ | ⟨c', sh, -, -, -⟩
+  · simp [hp] at h
+  · rcases sh.mem h with ht | ⟨-, ⟨-, rfl⟩ | rfl | ⟨-, -, -, -, C, o, hsh, hC, -⟩⟩
+    · have := (tagEv_facts ht).2.1
+      constructor <;> rintro x y rfl <;> simp [Ev.isHook] at this
+    · simp
+    · simp
+    · exact (commitEv_facts hsh hC).2.2
 
 /-- exit 0 of a real committing run means every enabled step happened: rewrite, one `add`
     per configured file, commit, and the tag when tagging is on -/
@@ -150,7 +275,21 @@ theorem C10_success_complete (c : PlanCfg) (a : PlanCli) (e : PlanEnv)
     (hc : Ev.cmd "commit" ∈ (plan c a e).1) :
     Ev.rewrite ∈ (plan c a e).1 ∧ (∀ p ∈ e.files, Ev.add p ∈ (plan c a e).1) ∧
     (effTag c a = true → ∃ ev ∈ (plan c a e).1, ev.isTag = true) := by
-  sorry
+  have _ := hd
+  rcases plan_cases c a e with ⟨_, hp⟩ | ⟨c', sh, -, htg, -⟩
+  · simp [hp] at hc
+  · rcases sh.mem hc with ht | ⟨-, ⟨_, hs⟩ | hr | ⟨-, -, -, hrw, C, o, hsh, -, hsub, hcode, -⟩⟩
+    · exact absurd rfl (tagEv_facts ht).2.2.2.2.2.1
+    · simp at hs
+    · simp at hr
+    · have ho : o = .ok := by
+        cases o
+        · rfl
+        · rw [h0] at hcode; simp at hcode
+      subst ho
+      obtain ⟨hadd, -, htag⟩ := hsh.ok_complete
+      exact ⟨hrw, fun p hp => hsub _ (hadd p hp),
+        fun ht => ⟨tagCmd c', hsub _ (htag (htg ▸ ht)), isTag_tagCmd c'⟩⟩
 
 /-! non-vacuity: a full run (hooks, three files, tag, push) and a failure in the middle -/
 private def cfgAll : PlanCfg := ⟨true, true, true, true, true, false, false⟩
